@@ -308,6 +308,8 @@ func grGenWith(t *rapid.T, version string, minEvents, maxEvents int, opts grOpts
 				action = 11
 			case h <= 9:
 				action = 13
+			case h == 10:
+				action = 10 // join rules changed by whoever holds the power at that point of the fork
 			}
 		}
 		switch action {
